@@ -54,12 +54,15 @@ def write_cfg(path, text):
         f.write(text)
 
 
-def _run(spec, cfg_text, args, workers, timeout, env=None, stdout_path=None):
+def _run(spec, cfg_text, args, workers, timeout, env=None, stdout_path=None, extra_files=None):
     """Copy spec dir into scratch (so generated cfgs / TTrace files never dirty /verif/spec)."""
     d = _scratch()
     for f in os.listdir(SPEC_DIR):
         if f.endswith(".tla"):
             shutil.copy(os.path.join(SPEC_DIR, f), os.path.join(d, f))
+    for fname, text in (extra_files or {}).items():
+        with open(os.path.join(d, fname), "w") as fh:
+            fh.write(text)
     cfg = os.path.join(d, "run.cfg")
     write_cfg(cfg, cfg_text)
     cmd = _java_cmd() + [
@@ -126,11 +129,11 @@ def extract_counterexample(text):
     return [b.strip() for b in blocks[1:]]
 
 
-def run_mc(spec, cfg_text, workers=16, timeout=1500, coverage=True, keep=False, extra_args=()):
+def run_mc(spec, cfg_text, workers=16, timeout=1500, coverage=True, keep=False, extra_args=(), extra_files=None):
     args = list(extra_args)
     if coverage:
         args += ["-coverage", "1"]
-    d, out_path, rc, wall = _run(spec, cfg_text, args, workers, timeout)
+    d, out_path, rc, wall = _run(spec, cfg_text, args, workers, timeout, extra_files=extra_files)
     text = open(out_path, errors="replace").read()
     res = parse_mc_output(text)
     res["wall_s"] = wall
@@ -170,7 +173,7 @@ def _hkey(h):
     return json.dumps(h, sort_keys=True, separators=(",", ":"))
 
 
-def run_paths(spec, cfg_text, simulate=None, timeout=2400, xmx="16g"):
+def run_paths(spec, cfg_text, simulate=None, timeout=2400, xmx="16g", extra_files=None):
     """Path-tree generation (Gen*.tla modules: variable `hist`, ACTION_CONSTRAINT PathOut, CONSTRAINT StateOut).
 
     Exhaustive (simulate=None) or `simulate=(num, depth, seed)`.
@@ -181,7 +184,7 @@ def run_paths(spec, cfg_text, simulate=None, timeout=2400, xmx="16g"):
     if simulate:
         num, depth, seed = simulate
         args = ["-simulate", "num=%d" % num, "-depth", str(depth), "-seed", str(seed)]
-    d, out_path, rc, wall = _run(spec, cfg_text, args, 1, timeout)
+    d, out_path, rc, wall = _run(spec, cfg_text, args, 1, timeout, extra_files=extra_files)
     head = subprocess.run(["grep", "-v", '^"{', out_path], capture_output=True, text=True).stdout
     res = parse_mc_output(head)
     bad = "Error:" in head or (not simulate and "Model checking completed" not in head)
